@@ -42,6 +42,7 @@ def run(rep: Report, tier: str) -> None:
 	rule_e(rep, idx, nm)
 	rule_f(rep, idx, nm)
 	rule_walker_state(rep, idx)
+	rule_flatten_every_key(rep, idx)
 
 
 # ---- (a) list-ness ------------------------------------------------------------------------------------------------------
@@ -742,3 +743,51 @@ def rule_walker_state(rep: Report, idx: SourceIndex) -> None:
 				r.ok(o.key, (o.file, o.line))
 	if n_ == 0:
 		r.skip('Procedure', None, 'C04/instance-state-inventory lists no attribute of Procedure')
+
+
+def rule_flatten_every_key(rep: Report, idx: SourceIndex) -> None:
+	"""Procedure pops, for every key of node.prop_keys(), as many results as the property yields; the walker pushes what Node.__prop_of_nodes (through
+	__prop_expand / procedural) yields. Both sides must range over the SAME keys: an iteration over prop_keys() on the flatten side that can skip a key —
+	a filter, a `continue`, an exception swallowed per key — pushes nothing for a property the pop side still pops one result for, and the handler is
+	handed the preceding sibling's result (the run ends in `Stack is empty` much later, or not at all)."""
+	from vlib.flow import parent_map
+	r = rep.rule('C09/flatten-yields-every-declared-property', 'every iteration over prop_keys() in node.py / procedure.py visits every key: no filter, no continue, no exception swallowed per key', floor=1)
+	n_ = 0
+	for rel in ('rogw/tranp/syntax/node/node.py', 'rogw/tranp/semantics/procedure.py'):
+		m = idx.mod(rel)
+		for q, f in m.functions.items():
+			if '#' in q:
+				continue
+			pm_ = parent_map(f.node)
+			for n in walk_no_nested(f.node):
+				gens = n.generators if isinstance(n, (ast.DictComp, ast.ListComp, ast.GeneratorExp, ast.SetComp)) else []
+				loops = [n] if isinstance(n, ast.For) else []
+				for g in gens:
+					it = deref(f.node, g.iter) if isinstance(g.iter, ast.Name) else g.iter
+					if 'prop_keys()' not in unparse(it):
+						continue
+					n_ += 1
+					r.check(not g.ifs, f'{q}:comprehension', (rel, n.lineno), f'`{unparse(n)[:90]}` filters the keys of prop_keys(): a property left out here is still popped by Procedure.__make_event, which then takes the result of the preceding sibling', unparse(n)[:120])
+				for lp in loops:
+					it = deref(f.node, lp.iter) if isinstance(lp.iter, ast.Name) else lp.iter
+					if 'prop_keys()' not in unparse(it):
+						continue
+					n_ += 1
+					# a `continue` skips the key only when nothing was recorded for it before (`event[key] = ...; continue` is the early-exit spelling of if / else)
+					lv = lp.target.id if isinstance(lp.target, ast.Name) else None
+					def _records(st: ast.stmt) -> bool:
+						return isinstance(st, (ast.Assign, ast.AnnAssign)) and any(isinstance(t, ast.Subscript) and lv is not None and unparse(t.slice) == lv for t in (st.targets if isinstance(st, ast.Assign) else [st.target]))
+					skips = []
+					for blk_owner in [lp] + [x for s_ in lp.body for x in ast.walk(s_) if isinstance(x, (ast.If, ast.Try, ast.With, ast.ExceptHandler))]:
+						for fld in ('body', 'orelse', 'finalbody'):
+							blk = getattr(blk_owner, fld, None)
+							if not isinstance(blk, list):
+								continue
+							for i_, st in enumerate(blk):
+								if isinstance(st, ast.Continue) and not any(_records(p_) for p_ in blk[:i_]):
+									skips.append(st)
+					swallowed = [h for s_ in lp.body for t in ast.walk(s_) if isinstance(t, ast.Try) for h in t.handlers if not any(isinstance(x, ast.Raise) for x in ast.walk(h))]
+					why = 'skips a key with `continue`' if skips else ('swallows an exception raised for one key (`except ' + (unparse(swallowed[0].type) if swallowed and swallowed[0].type is not None else '') + '`)' if swallowed else '')
+					r.check(not skips and not swallowed, f'{q}:loop', (rel, lp.lineno), f'the loop over prop_keys() in {q} {why}: the flatten side then pushes nothing for a property whose getter refuses its child (`"0123456789"[d]`, `(a, b)[i]`), while Procedure.__make_event still pops one result for it — the handler receives the result of the preceding sibling and the unmodified rejection (IllegalConvertion before any handler runs) turns into a misaligned run', unparse(lp)[:120])
+	if n_ == 0:
+		r.skip('prop_keys', None, 'no iteration over prop_keys() found in node.py / procedure.py')
